@@ -1,5 +1,5 @@
 import DoitModel.Proofs.C05Mon
-import DoitModel.Proofs.C05Unmet
+import DoitModel.Proofs.C05Halt
 /-! # C05 — failures are contained and never recorded as success
 
 Property theorems only (model: `Model/Run.lean` + `Model/RunFail.lean`; invariants: `Proofs/Run*.lean`,
@@ -96,21 +96,28 @@ theorem C05_continue_complete_serial (inp : RunInput) (hc : inp.continue_ = true
   ⟨fun t ht => all_processed_serial hr hend hhalt ((reach_invF hr).st hc) t ht,
    fun _ h => unmet_has_failed_dep (reach_invU hr) (reach_invF hr) h⟩
 
-/-- (c) for every runner; not proved for the parallel runners yet: "exactly one terminal report for every closure
-    member" needs the `free_proc`/`proc_count` accounting invariant (same gap as `C02_all_processed_parallel_full`).
-    The monitor `monC05ContinueComplete` evaluates the full statement on every implementation trace. -/
-def C05_continue_complete_full : Prop :=
-  ∀ (inp : RunInput), inp.continue_ = true → ∀ s, (PReach inp s ∨ Reach inp s) → s.rpc = .halted → s.halt = .none →
+/-- (c), `MRunner` / `MThreadRunner`, full strength — every interleaving of any number of workers: with `--continue`,
+    when the main loop ends (`proc_count = 0`) without an internal error, every task in the closure of the selection has
+    exactly one terminal report — its normal one (executed / up-to-date / ignored / failed on its own account) unless it
+    depends on a task with a failure report, the only case in which it is reported `unmet`.  No hypothesis on `stop`:
+    with `--continue` a failure never sets `_stop_running` (`C05_continue_never_stops`), so `get_next_job` never
+    answers "nothing left" because of a failure; that the loop then leaves no closure member unprocessed is the
+    `free_proc` / `proc_count` accounting invariant of `Proofs/RunAcct.lean` (`C02_all_processed_parallel`). -/
+theorem C05_continue_complete_parallel (inp : RunInput) (hc : inp.continue_ = true) (s : Sys) (hr : PReach inp s)
+    (hend : s.rpc = .halted) (hhalt : s.halt = .none) :
     (∀ t, RunCl inp s t → s.events.countP (Ev.isTerminalOf t) = 1) ∧
-    (∀ t, Ev.failure t .unmet ∈ s.events → ∃ d k, DepOnE inp s.events t d ∧ Ev.failure d k ∈ s.events)
-
-/-- what is proved of `C05_continue_complete_full` for the parallel runners: `--continue` never sets `_stop_running`
-    (so `get_next_job` never answers "stop" because of a failure) and `unmet` is reported only below a failed task;
-    missing: that the main loop leaves no closure member unprocessed -/
-theorem C05_continue_complete_partial (inp : RunInput) (hc : inp.continue_ = true) (s : Sys) (hr : PReach inp s) :
-    s.stop = false ∧
     (∀ t, Ev.failure t .unmet ∈ s.events → ∃ d k, DepOnE inp s.events t d ∧ Ev.failure d k ∈ s.events) :=
-  ⟨(preach_invF hr).st hc, fun _ h => unmet_has_failed_dep (preach_invU hr) (preach_invF hr) h⟩
+  ⟨fun t ht => all_processed_parallel hr hend hhalt ((preach_invF hr).st hc) t ht,
+   fun _ h => unmet_has_failed_dep (preach_invU hr) (preach_invF hr) h⟩
+
+/-- (c) for every runner (the statement that used to be the placeholder `def C05_continue_complete_full`) -/
+theorem C05_continue_complete (inp : RunInput) (hc : inp.continue_ = true) (s : Sys)
+    (hr : PReach inp s ∨ Reach inp s) (hend : s.rpc = .halted) (hhalt : s.halt = .none) :
+    (∀ t, RunCl inp s t → s.events.countP (Ev.isTerminalOf t) = 1) ∧
+    (∀ t, Ev.failure t .unmet ∈ s.events → ∃ d k, DepOnE inp s.events t d ∧ Ev.failure d k ∈ s.events) := by
+  rcases hr with hr | hr
+  · exact C05_continue_complete_parallel inp hc s hr hend hhalt
+  · exact C05_continue_complete_serial inp hc s hr hend hhalt
 
 /-- (d) serial runner without `--continue`: no action starts after the first failure report (of any kind) -/
 theorem C05_serial_stops (inp : RunInput) (hc : inp.continue_ = false) (s : Sys) (hr : Reach inp s)
@@ -152,6 +159,62 @@ theorem C05_monitor_serial_stops (inp : RunInput) (s : Sys) (hr : Reach inp s) :
     monC05SerialStops inp (trace inp s) = true :=
   monC05SerialStops_of_inv (fun hc => reach_invS hc hr)
 
+/-- (c): `monC05ContinueComplete` — the monitor the driver evaluates on every implementation trace — holds on the
+    observable trace of EVERY reachable state of the model, for every runner, with any exit code that is `≤ 2` only if
+    no internal error ended the run (as `exitCode` is), for every bound `nTasks` that exceeds all task names
+    (`namesBelow`, decidable; the driver's `n`).  On a trace that does not end in `complete` the monitor's guard is
+    false (`C05_complete_means_halted`: a trace ending in `complete` is the trace of a halted state); at a normal end
+    every member of the closure the monitor computes FROM THE TRACE (`closureOf`: selection, task_dep, calc_dep, what calc_deps with a finish report delivered, setup-tasks of every task whose first-stage dependencies all
+    finished and which is neither ignored nor up-to-date nor in error — a superset of `RunCl`: it also contains the
+    setup-tasks of a task reported `unmet` / ignored in the second `select_task` pass) has exactly one terminal report
+    in the trace, and a task reported `unmet` has a failed task among the direct dependencies the trace determines
+    (`edgesOf`).  The fixed-point iterations of the monitor need no more than `nTasks` rounds (`Proofs/C05Fuel.lean`). -/
+theorem C05_monitor_continue_complete_serial (inp : RunInput) (s : Sys) (hr : Reach inp s) (nTasks : Nat)
+    (hb : namesBelow inp nTasks = true) (exit : Nat) (hx : exit ≤ 2 → s.halt = .none) :
+    monC05ContinueComplete inp nTasks (trace inp s) exit = true :=
+  monC05ContinueComplete_of_inv (allInv_serial hr) (reach_invC hr) (endFacts_serial hr) (below_of hb) exit hx
+
+theorem C05_monitor_continue_complete_parallel (inp : RunInput) (s : Sys) (hr : PReach inp s) (nTasks : Nat)
+    (hb : namesBelow inp nTasks = true) (exit : Nat) (hx : exit ≤ 2 → s.halt = .none) :
+    monC05ContinueComplete inp nTasks (trace inp s) exit = true :=
+  monC05ContinueComplete_of_inv (allInv_parallel hr) (preach_invC hr) (endFacts_parallel hr) (below_of hb) exit hx
+
+/-- … in particular with the exit code of the model (`exitCode`: 3 after an internal error) -/
+theorem C05_monitor_continue_complete_exit (inp : RunInput) (s : Sys) (hr : PReach inp s ∨ Reach inp s) (nTasks : Nat)
+    (hb : namesBelow inp nTasks = true) : monC05ContinueComplete inp nTasks (trace inp s) (exitCode s) = true := by
+  rcases hr with hr | hr
+  · exact C05_monitor_continue_complete_parallel inp s hr nTasks hb _ exit_le_two
+  · exact C05_monitor_continue_complete_serial inp s hr nTasks hb _ exit_le_two
+
+/-- `complete_run` is reported only by `Runner.finish()`: a trace that contains `complete` belongs to a halted state
+    (why the guard of the monitor singles out the ends of runs) -/
+theorem C05_complete_means_halted (inp : RunInput) (s : Sys) (hr : PReach inp s ∨ Reach inp s)
+    (h : Ev.complete ∈ s.events) : s.rpc = .halted := by
+  rcases hr with hr | hr
+  · exact preach_invC hr h
+  · exact reach_invC hr h
+
+/-- the sharper form of `C05_unmet_has_failed_dep` behind the monitor: the failed dependency is one the run has OBSERVED
+    (`DepObs`: task_dep, calc_dep, what calc_deps with a finish report in the event list delivered) or a setup-task -/
+theorem C05_unmet_has_observed_failed_dep (inp : RunInput) (s : Sys) (hr : PReach inp s ∨ Reach inp s) (t : Name)
+    (h : Ev.failure t .unmet ∈ s.events) :
+    ∃ d k, (DepObs inp s.events t d ∨ d ∈ inp.setup t) ∧ Ev.failure d k ∈ s.events := by
+  rcases hr with hr | hr
+  · exact (preach_invU hr).um t h
+  · exact (reach_invU hr).um t h
+
+/-- why a task got a failure or `skip_ignore` report (all runners, every reachable state): all its setup-tasks had been
+    processed (second `select_task` pass), or it is ignored itself / its status is `error`, or one of its observed
+    first-stage dependencies has a failure / `skip_ignore` report, or `select_task` had chosen it for execution -/
+theorem C05_abnormal_report_justified (inp : RunInput) (s : Sys) (hr : PReach inp s ∨ Reach inp s) (u : Name)
+    (h : (∃ k, Ev.failure u k ∈ s.events) ∨ Ev.skipIgn u ∈ s.events) :
+    (∀ d ∈ inp.setup u, (stOf s d).finished = true) ∨ inp.ignored u = true ∨ inp.statusOf u = .error ∨
+    (∃ p, DepObs inp s.events u p ∧ ((∃ k, Ev.failure p k ∈ s.events) ∨ Ev.skipIgn p ∈ s.events)) ∨
+    (∃ deps, Ev.go u deps ∈ s.events) := by
+  rcases hr with hr | hr
+  · exact (preach_invE hr).just u h
+  · exact (reach_invE hr).just u h
+
 /-! ### the pinned behaviour -/
 
 /-- node of a task whose first `select_task` pass said "run, setup-tasks first" and whose setup-task `1` then failed -/
@@ -192,10 +255,24 @@ example : ∃ s, Reach exFail s ∧ s.rpc = .halted ∧ s.halt = .none ∧
     s.events.contains (Ev.success 5) = true ∧ s.events.contains (Ev.success 3) = true :=
   ⟨_, autoRun_reach (by decide) false false 600 _ Reach.init, by decide +kernel⟩
 
-/-- the same under two worker threads -/
-example : ∃ s, PReach { exFail with runner := .thread, numProc := 2 } s ∧ s.rpc = .halted ∧
+/-- the same under two worker threads: the hypotheses of `C05_continue_complete_parallel` are met by a real run -/
+example : ∃ s, PReach { exFail with runner := .thread, numProc := 2 } s ∧ s.rpc = .halted ∧ s.halt = .none ∧
     s.events.contains (Ev.failure 0 .failed) = true ∧ s.events.contains (Ev.failure 4 .unmet) = true ∧
+    s.events.contains (Ev.failure 1 .unmet) = true ∧ s.events.contains (Ev.failure 2 .unmet) = true ∧
     s.events.contains (Ev.success 5) = true :=
+  ⟨_, autoRun_preach (by decide) false true 900 _ PReach.init, by decide +kernel⟩
+
+/-- the hypotheses of the monitor theorem: all names of `exFail` are below 6, and the monitor's closure of the two-thread
+    run is the whole table -/
+example : namesBelow exFail 6 = true := by decide
+
+/-- … and the closure the monitor computes from the trace of the two-thread run is the whole table; it contains the
+    setup-task `1` of task `2`, which `select_task` never chose for execution (no `go 2`: `2` is reported `unmet` in the
+    second pass) — the case in which `closureOf` exceeds `RunCl` -/
+example : ∃ s, PReach { exFail with runner := .thread, numProc := 2 } s ∧ s.rpc = .halted ∧ s.halt = .none ∧
+    (closureOf { exFail with runner := .thread, numProc := 2 } 6
+      (trace { exFail with runner := .thread, numProc := 2 } s)).length = 6 ∧
+    s.events.all (fun e => match e with | .go 2 _ => false | _ => true) = true :=
   ⟨_, autoRun_preach (by decide) false true 900 _ PReach.init, by decide +kernel⟩
 
 /-- without `--continue` the serial run stops after the failure: the independent task `5` is never started -/
